@@ -1319,6 +1319,7 @@ impl<H: BuildHasher + Default + Clone + std::fmt::Debug> Ex<H> {
         // second path: through serde_json::Value, a deserializer that reports an
         // exact size_hint (the text one reports none): the with_capacity branch
         // of visit_seq.  Both paths must build the same queue.
+        let counted = cmps_get();   // the second path is the harness's own: not counted
         let same = match (&v, serde_json::from_str::<serde_json::Value>(js)) {
             (Ok(Reg::Pq(a)), Ok(val)) => match serde_json::from_value::<PQ<H>>(val) {
                 Ok(b) => *a == b && a.verif_snapshot() == b.verif_snapshot(),
@@ -1330,6 +1331,7 @@ impl<H: BuildHasher + Default + Clone + std::fmt::Debug> Ex<H> {
             },
             _ => true,
         };
+        cmps_set(counted);
         if !same {
             return Res::FaultPanic;
         }
